@@ -30,6 +30,13 @@ static int muggle_log_file_handler_write(
 	{
 		return -2;
 	}
+	if (ret >= (int)sizeof(buf))
+	{
+		// the formatter returns the length it wanted; only sizeof(buf) - 1 bytes
+		// were stored. Write what fits and keep the line terminated.
+		ret = (int)sizeof(buf) - 1;
+		buf[ret - 1] = '\n';
+	}
 
 	muggle_log_file_handler_t *handler = (muggle_log_file_handler_t*)base_handler;
 
